@@ -29,7 +29,7 @@ def gates(tier):
     return {'calls': 40000, 'returned_results': 25000, 'raised': 500, 'long_form_results': 1200, 'entries_checked': 8000,
             'partial_grades': 800, 'attempt_credit_calls': 1500, 'debug_on_results': 800, 'debug_off_results': 4000,
             'class:StringGrader': 300, 'class:FormulaGrader': 300, 'class:NumericalGrader': 300, 'class:MatrixGrader': 300,
-            'class:SingleListGrader': 300, 'class:IntervalGrader': 300, 'class:SumGrader': 200, 'class:ListGrader': 800, 'shared_debug_calls': 800, 'registered_defaults_calls': 400, 'random_option_combinations': 1500}
+            'class:SingleListGrader': 300, 'class:IntervalGrader': 300, 'class:SumGrader': 200, 'class:ListGrader': 800, 'shared_debug_calls': 800, 'registered_defaults_calls': 400, 'random_option_combinations': 1500, 'registered_debug_level_calls': 100}
 
 
 def has_pin(desc):
@@ -253,9 +253,53 @@ def run_registered_defaults(ctx):
         ctx.nontrivial(['registered', cls.__name__, order])
 
 
+def run_registered_debug_levels(ctx):
+    """debug switched through registered class defaults (plugins/defaults_sample.py): the value registered for the more derived
+    class is the one in force, a later registration on one class overwrites the earlier one -- a result carries the debug log
+    exactly when the debug value so determined is on."""
+    import mitxgraders as M
+    from mitxgraders.baseclasses import ItemGrader, AbstractGrader
+    rng = ctx.rng
+    for i in range(ctx.n(60, 600)):
+        scenario = rng.choice(['two_levels', 'two_levels', 'repeated'])
+        sup = rng.choice([ItemGrader, AbstractGrader])
+        first = rng.random() < 0.5
+        try:
+            if scenario == 'two_levels':
+                regs = [(sup, {'debug': True}), (M.StringGrader, {'debug': False})]
+                if rng.random() < 0.5:
+                    regs.reverse()
+                expect = {'StringGrader': False, 'FormulaGrader': True}
+            else:
+                regs = [(M.StringGrader, {'debug': first, 'wrong_msg': 'w'}), (M.StringGrader, {'debug': not first})]
+                expect = {'StringGrader': not first, 'FormulaGrader': False}
+            for cls, d in regs:
+                cls.register_defaults(d)
+            for name, g, inputs in (('StringGrader', M.StringGrader(answers='cat'), ['cat', 'dog']),
+                                    ('FormulaGrader', M.FormulaGrader(answers='x+1', variables=['x']), ['x+1', '2*x'])):
+                for inp in inputs:
+                    out = lib.call(ctx, g, None, inp)
+                    ctx.ev()
+                    ctx.count('calls')
+                    ctx.count('registered_debug_level_calls')
+                    if not out.returned:
+                        ctx.count('raised')
+                        ctx.violation('C01:registered_debug_levels:raises', repr(out.exc)[:200], {'class': name, 'registrations': [(c.__name__, d) for c, d in regs]})
+                        continue
+                    ctx.count('returned_results')
+                    check_result(ctx, {'cls': name, 'desc': {'class': name, 'registrations': [(c.__name__, d) for c, d in regs]}}, out.value, [inp], expect[name],
+                                 {'scenario': 'debug registered as a class default: ' + scenario, 'registrations': [(c.__name__, d) for c, d in regs],
+                                  'debug_in_force_for_' + name: expect[name], 'outcome': out.brief()})
+        finally:
+            for cls in (M.StringGrader, ItemGrader, AbstractGrader):
+                cls.clear_registered_defaults()
+        ctx.nontrivial(['registered_debug', scenario, sup.__name__, first])
+
+
 def run(ctx):
     run_shared_debug(ctx)
     run_registered_defaults(ctx)
+    run_registered_debug_levels(ctx)
     rng = ctx.rng
     F = GG.Factory(rng)
     scheds = schedules()
